@@ -183,8 +183,10 @@ def run(c):
                     c.obligation("coq-eval:" + fname, False, out[-2500:])
                     continue
                 body = re.sub(r"\s+", " ", out)
-                for mm in re.finditer(r"\((\d+), (true|false), (true|false), (true|false)\)", body):
+                for mm in re.finditer(r"\(\s*(\d+),\s*\(\s*(true|false),\s*(true|false),\s*(true|false)\s*\)\s*\)", body):
                     coq[int(mm.group(1))] = tuple(x == "true" for x in mm.groups()[1:])
+                if not re.search(r"RES\s*=", out):
+                    c.obligation("coq-eval-parse:" + fname, False, out[-1500:])
         ops_seen = set()
         for cs in cases:
             c.count()
@@ -256,12 +258,14 @@ def run(c):
         c.coverage["cases"] += len(cases)
         c.coverage.setdefault("model_vs_impl_cases", 0)
         c.coverage["model_vs_impl_cases"] += len(coq)
+        if gen_usable and len(coq) < len(have):
+            c.obligation("coq-eval-complete:" + tag, False, "model results for %d of %d cases" % (len(coq), len(have)))
         c.coverage.setdefault("toolchain_roundtrips", 0)
         c.coverage["toolchain_roundtrips"] += len(results)
         prev = set(c.coverage.get("filter_ops_seen", []))
         c.coverage["filter_ops_seen"] = sorted(prev | ops_seen)
 
-    n, nrules = (80, 10) if not thorough else (1500, 120)
+    n, nrules = (120, 12) if not thorough else (1500, 120)
     cases, results = observe(n, nrules, c.seed, "main")
     compare(cases, results, "main")
 
